@@ -132,7 +132,7 @@ def rounds_values(h, tier="quick"):
     elif name == "sun_md5_crypt":
         base = [0, 1, 2, 3, 7, 32, 100] + ([1000, 4095, 4096] if tier == "thorough" else [])
     elif name == "bsdi_crypt":
-        base = [1, 3, 5, 25, 63, 65, 4095, 4097] + ([262143, 262145] if tier == "thorough" else [])
+        base = [1, 3, 5, 25, 63, 65, 4095, 4097] + ([16383, 16385] if tier == "thorough" else [])
     elif name in ("msdcc2",):
         base = [None]
     else:
